@@ -579,6 +579,8 @@ def search(ctx, divergences):
 
 def sanity(ctx):
     from tcv.core import BrokenCheck
+    if ctx.failures or ctx.divergences:
+        return          # a verdict is being reported; the distribution of a broken implementation says nothing
     c = ctx.counts
     need = ['callers=2', 'callers=3', 'has_late_caller', 'has_raise', 'has_miss', 'load_overlaps_writer', 'computations=2']
     missing = [k for k in need if c.get(k, 0) < 20]
